@@ -164,9 +164,21 @@ def gen_many(seed, idx):
             ops.append({"k": "call", "t": t, "f": "send_burst", "a": [[OFFER], r.choice(contacted[:8] + [first, None]), r.randint(1, 3)]})
         elif u < 0.2:
             ops.append({"k": "call", "t": t, "f": "send_burst", "a": [[], r.choice(contacted), 1]})
-    for _ in range(r.randint(5, 40)):
+    big = r.random() < 0.4
+    crowd = r.random() < 0.3
+    for q in range(r.randint(5, 40)):
         t = round(t + 0.001, 6)
         ops.append({"k": "call", "t": t, "f": "send_burst", "a": [[OFFER], r.choice(contacted[:10] + contacted + [first, None, 2]), r.randint(1, 3)]})
+        if big and q % 7 == 3:
+            # one SD message with many entries (with and without options): still one message, one session id
+            m = r.choice([50, 60, 87, 100, 130])
+            ents = [["offer", 0x2000 + e, 1, 1, 0, 3, [["ep", 4, "10.0.0.1", 17, 30500 + e % 3]]] if r.random() < 0.7 else ["find", 0x3000 + e, 0xFFFF, 0xFF, 0xFFFFFFFF, 3] for e in range(m)]
+            ops.append({"k": "call", "t": t, "f": "send_burst", "a": [ents, r.choice(contacted[:5] + [first, None]), r.randint(1, 2)]})
+        if crowd and q == 2:
+            # meanwhile a crowd of senders is heard: what the stack receives has no bearing on its outgoing counters
+            for j in range(r.choice([260, 520, 700])):
+                ops.append({"k": "sd", "t": round(t + j * 0.00001, 9), "p": j % 4, "ch": "um"[(j // 4) % 2], "port": 43000 + j // 8, "e": [["find", 0x7777, 0xFFFF, 0xFF, 0xFFFFFFFF, 3]]})
+            t = round(t + 0.01, 6)
     cfg = {"timings": {"SUBSCRIBE_REFRESH_INTERVAL": None, "INITIAL_DELAY_MIN": 0, "INITIAL_DELAY_MAX": 0, "REPETITIONS_MAX": 0}}
     return {"engine": "single", "property": ID, "class": "many", "seed": seed, "cfg": cfg, "ops": ops, "until": round(t + 1.0, 6)}
 
